@@ -1,3 +1,4 @@
+import Props.C18Logic
 import SynapModel.Data
 /-!
 # C18 — Dataset split, batching and one-hot encoding lose or misalign no sample
